@@ -300,6 +300,11 @@ func (e *Engine) evCall(c *ast.CallExpr, st *State) []Value {
 				if !ok && e.calleePost > 0 {
 					return []Value{e.calleeGhost(key.name, e.typeOf(c))}
 				}
+				if !ok && e.c != nil && strings.Contains(" "+e.c.Opts["track"]+" ", " "+name+" ") {
+					// the function is tracked but has not been called on this path: the value is unspecified (an
+					// arbitrary one), so a specification has to guard it with called(...)
+					return []Value{e.havocValue("nocall", e.typeOf(c))}
+				}
 				if !ok {
 					e.fail(c.Pos(), "%s(%q): no tracked call on this path (is the function listed in `opt track`?)", id.Name, name)
 				}
